@@ -49,7 +49,7 @@ impl RunSource for Explore {
         }
         let seed = prng::run_seed(self.base, props::salt(&self.prop), self.i);
         self.i += 1;
-        let (s, c) = props::generate(&self.prop, seed);
+        let (s, c) = props::generate(&self.prop, seed, self.i - 1);
         self.cur = Some((seed, s.clone(), c.clone()));
         Some((s, c))
     }
